@@ -55,8 +55,14 @@ def main():
         scratch = tempfile.mkdtemp(prefix="vsens-", dir="/tmp")
         os.rmdir(scratch)
         try:
-            subprocess.run(["git", "-C", "/repo", "worktree", "add", "-q", "--detach", scratch, base], check=True)
-            subprocess.run(["git", "-C", scratch, "apply", patch], check=True)
+            # on the current tree where the patch still applies (so that defects repaired since are not
+            # what gets "caught"); else on the commit the patch was written against
+            subprocess.run(["git", "-C", "/repo", "worktree", "add", "-q", "--detach", scratch, "HEAD"], check=True)
+            if subprocess.run(["git", "-C", scratch, "apply", patch], capture_output=True).returncode != 0:
+                subprocess.run(["git", "-C", "/repo", "worktree", "remove", "--force", scratch])
+                subprocess.run(["git", "-C", "/repo", "worktree", "add", "-q", "--detach", scratch, base], check=True)
+                subprocess.run(["git", "-C", scratch, "apply", patch], check=True)
+                print("%-55s (applied on %s: no longer applies on HEAD)" % (name, base))
             tmp = tempfile.mkdtemp(prefix="vsens-out-", dir="/tmp")
             for c in checks:
                 env = dict(os.environ, VERIF_REPO=scratch, VERIF_REPLAY_DIR=os.path.join(tmp, "replays"), VERIF_EVIDENCE_DIR=os.path.join(tmp, "evidence"))
